@@ -67,6 +67,7 @@ func c18Dirs(tier string, g *rand.Rand) [][]c18Entry {
 		[]c18Entry{{File: "10-stubborn-a", Kind: "exec"}, {File: "20-good", Kind: "exec"}, {File: "30-stubborn-syncfail", Kind: "exec"}},
 		[]c18Entry{{File: "10-dropidle-a", Kind: "exec"}, {File: "20-good", Kind: "exec"}},
 		[]c18Entry{{File: "10-good", Kind: "exec"}, {File: "15-cfgfail-a", Kind: "exec", ConfGen: str("refused")}, {File: "30-also", Kind: "exec"}},
+		[]c18Entry{{File: "10-reidx-a", Kind: "exec", ConfSpec: str("specific-reidx")}, {File: "50-mid", Kind: "exec"}, {File: "95-last", Kind: "exec"}},
 		[]c18Entry{{File: "10-one", Kind: "exec"}, {File: "20-two", Kind: "exec"}, {File: "30-three", Kind: "exec"}, {File: "40-four", Kind: "exec"}, {File: "50-five", Kind: "exec"}},
 		[]c18Entry{{File: "10-foo", Kind: "exec", ConfSpec: str("specific-10-foo"), ConfGen: str("generic-foo")}, {File: "20-foo", Kind: "exec", ConfGen: str("generic-foo")}},
 		[]c18Entry{{File: "10-bar", Kind: "exec", ConfSpec: str("specific-10-bar")}, {File: "20-bar", Kind: "exec"}, {File: "30-bar", Kind: "exec", ConfSpec: str("specific-30-bar")}},
